@@ -436,3 +436,27 @@ _add(Prop(
           "only when the buffer ran empty, that is_exhausted holds exactly when the buffer is empty and the source exhausted, "
           "and that draining yields len + ceil(S/CAP)*CAP frames, i.e. fewer than one buffer of padding.",
 ))
+
+
+_add(Prop(
+    "C08", "c08_converter", "c08",
+    functions=["dasp_signal::interpolate::Converter::{scale_playback_hz, from_hz_to_hz, scale_sample_hz, set_playback_hz_scale, "
+               "set_hz_to_hz, set_sample_hz_scale, next, is_exhausted, source, verif_from_state (hook), verif_state (hook)}",
+               "Signal::{mul_hz, from_hz_to_hz, scale_hz}, MulHz::{next, is_exhausted}",
+               "dasp_interpolate::floor::Floor::{new, interpolate, next_source_frame, reset}",
+               "dasp_interpolate::linear::Linear::{new, interpolate, next_source_frame, reset}"],
+    bounds="one output from ANY state with interpolation value v in [0,3) (quick) / [0,8) (thorough) and ANY finite ratio > 0; "
+           "linear: blend formula for i16 frames at ANY fraction in [0,1) and for f64 stereo frames on a grid; the interval "
+           "clause for i8 frames with the fraction on the 2^-8 grid (i16 operands did not finish in 900 s); ratio-1 run of 5 outputs; floor run with ratio k/4, 1<=k<=12, R <= 3 source frames after priming, up to 18 "
+           "outputs; mul_hz: 4 outputs with fixed control values",
+    outside="sinc (C18); accumulated rounding of non-dyadic ratios over long runs (the position P_n is stated in the "
+            "converter's own f64 arithmetic - the real-number drift is not decided); v >= 8 in one step; Linear for other "
+            "integer formats",
+    design_ref="DESIGN.md §4 C08",
+    claim="From every converter state within the bound the solver shows one output pulls exactly floor(v) source frames in "
+          "order, interpolates once afterwards at v - floor(v) in [0,1), and advances the position by exactly the ratio in "
+          "effect, and that exhaustion is reported exactly when the source is exhausted and v >= 1 - so pulled-frames + v "
+          "tracks P_n for any history. Floor yields the frame at floor(P_n); linear is the f64 straight-line blend and never "
+          "leaves the interval of its two frames; ratio 1 is transparent; a finite source at ratio r yields ceil((R+1)/r) "
+          "outputs or one more; mul_hz pulls its control signal once per output.",
+))
